@@ -39,10 +39,18 @@ OPS = [
 
 
 def sh(cmd, cwd=None, timeout=None, env=None):
+    # own process group, so that a hanging test binary is killed together with its shell
+    p = subprocess.Popen(cmd, shell=True, cwd=cwd, stdout=subprocess.PIPE, stderr=subprocess.STDOUT, text=True, env=env, start_new_session=True)
     try:
-        p = subprocess.run(cmd, shell=True, cwd=cwd, capture_output=True, text=True, timeout=timeout, env=env)
-        return p.returncode, p.stdout + p.stderr
+        out, _ = p.communicate(timeout=timeout)
+        return p.returncode, out
     except subprocess.TimeoutExpired:
+        import signal
+        try:
+            os.killpg(p.pid, signal.SIGKILL)
+        except ProcessLookupError:
+            pass
+        p.communicate()
         return 124, 'timeout'
 
 
@@ -124,7 +132,9 @@ def main():
         t0 = time.time()
         rc, out = sh('cargo test --offline 2>&1 | tail -5', cwd=S, timeout=900, env=env)
         m = re.search(r'test result: (\w+)\. (\d+) passed; (\d+) failed', out)
-        if not m:
+        if rc == 124:
+            verdict = 'hangs-in-existing-tests'
+        elif not m:
             verdict = 'does-not-compile'
         elif m.group(1) != 'ok':
             verdict = 'killed-by-existing-tests'
